@@ -122,6 +122,28 @@ func c10() []*Ob {
 		{Prop: "C10", ID: "C10.2", Engine: "ERRFLOW+ACK+ORDER", Floor: 5,
 			Desc: "all-or-nothing: every error of readNext and Process except errNotAnObject makes processDocsToCompressor fail; pooled payload buffers are Reset before their first use; ProcessDocuments stores exactly once, outside loops, after processDocsToCompressor returned nil",
 			Check: func(c *Ctx) {
+				// every line that was read is decoded: no path from reading a line back to the loop head bypasses Process
+				if fn := c.Fn("(*proxy/bulk.Ingestor).processDocsToCompressor"); fn != nil {
+					procCalls := CallsIn(fn, Callee("(*proxy/bulk.processor).Process"))
+					if len(procCalls) == 1 {
+						pc := procCalls[0].(ssa.Instruction)
+						if l := InnermostLoop(pc.Block()); l != nil {
+							okAll := true
+							for _, pr := range l.Header.Preds {
+								if !l.Blocks[pr] {
+									continue
+								}
+								if !Dominates(pc, pr.Instrs[len(pr.Instrs)-1]) {
+									okAll = false
+									c.Violation("order:processDocsToCompressor:line-not-decoded", pr.Instrs[len(pr.Instrs)-1].Pos(), "the bulk loop can go on to the next line without having passed the current one to Process: a line that is skipped by a cheaper test is neither stored nor able to fail the bulk (a malformed line must reject the request, a valid document must be stored)")
+								}
+							}
+							if okAll {
+								c.Site(pc.Pos(), "every iteration of the bulk loop decodes its line")
+							}
+						}
+					}
+				}
 				fn := c.Fn("(*proxy/bulk.Ingestor).processDocsToCompressor")
 				if fn != nil {
 					ErrPathCheck(c, []*ssa.Function{fn}, nil)
